@@ -81,6 +81,8 @@ def strategy(tier):
     return st.fixed_dictionaries({
         "segments": st.lists(docs_s(), min_size=1, max_size=4),
         "blocklimit": st.sampled_from([1, 2, 2, 4, 4, 8]),
+        # short posting lists inlined into the term dictionary are served by another matcher class
+        "inlinelimit": st.sampled_from([1, 1, 3, 6]),
         "delete": st.lists(st.integers(0, 200), max_size=8),
         "optimize": st.sampled_from([False, False, False, True]),
         "schema": st.fixed_dictionaries({"t_boost": st.sampled_from([1.0, 2.0, 1.1, 0.3])}),
@@ -128,13 +130,16 @@ def build(case):
             n += 1
             keys.append(k)
             ops.append(["add", {"k": k, "t": [VOC[i] for i in toks], "w": [], "n": num, "d": None, "g": g, "boost": boost}])
-        txs.append({"ops": ops, "end": "commit", "merge": False, "optimize": False, "blocklimit": case["blocklimit"]})
+        txs.append({"ops": ops, "end": "commit", "merge": False, "optimize": False, "blocklimit": case["blocklimit"],
+                    "inlinelimit": case.get("inlinelimit", 1)})
     dels = sorted(set(keys[i % len(keys)] for i in case["delete"]))
     if dels:
         txs.append({"ops": [["delk", k] for k in dels], "end": "commit", "merge": False, "optimize": False,
-                    "blocklimit": case["blocklimit"]})
+                    "blocklimit": case["blocklimit"],
+                    "inlinelimit": case.get("inlinelimit", 1)})
     if case["optimize"]:
-        txs.append({"ops": [], "end": "commit", "merge": True, "optimize": True, "blocklimit": case["blocklimit"]})
+        txs.append({"ops": [], "end": "commit", "merge": True, "optimize": True, "blocklimit": case["blocklimit"],
+                    "inlinelimit": case.get("inlinelimit", 1)})
     return corpus.build({"schema": case["schema"], "txs": txs}, "ram", None, ref_eval, to_whoosh)
 
 
@@ -142,11 +147,17 @@ def close(a, b, tol=1e-9):
     return abs(a - b) <= tol * max(1.0, abs(a), abs(b))
 
 
-def strip_big_boosts(qj):
+def _wrapped_ops(inlined):
+    # queries whose boost > 1 is applied by a WrappingMatcher: compounds, and - when short posting lists are inlined
+    # into the term dictionary - also plain terms (their ListMatcher is wrapped instead of getting a boosted scorer)
+    return ("and", "or", "dismax", "term") if inlined else ("and", "or", "dismax")
+
+
+def strip_big_boosts(qj, inlined=False):
     import copy
     q = copy.deepcopy(qj)
     for x in walk(q):
-        if x.get("boost", 1.0) > 1.0 and x["op"] in ("and", "or", "dismax"):
+        if x.get("boost", 1.0) > 1.0 and x["op"] in _wrapped_ops(inlined):
             x["boost"] = 1.0
     return q
 
@@ -163,6 +174,7 @@ def run(case, out):
     ix, model = build(case)
     nseg, ndel = corpus.layout_signature(ix)
     wcfg = case["weighting"]
+    inlined = case.get("inlinelimit", 1) > 1
     s = ix.searcher(weighting=make_weighting(wcfg))
     nt = []
     engaged = 0
@@ -227,8 +239,8 @@ def run(case, out):
                                                    for a, b in zip(got, exp))
                         if tie_ok:
                             out.exclude("float_noise_tie_reordering")
-                        elif any(x.get("boost", 1.0) > 1.0 and x["op"] in ("and", "or", "dismax") for x in walk(qj)) \
-                                and topk_ok(s, strip_big_boosts(qj), k, kw):
+                        elif any(x.get("boost", 1.0) > 1.0 and x["op"] in _wrapped_ops(inlined) for x in walk(qj)) \
+                                and topk_ok(s, strip_big_boosts(qj, inlined), k, kw):
                             # recorded finding: WrappingMatcher.replace() does not divide the threshold by
                             # the boost (pinned by tests/test_quality.py::test_replacements). Attributed only
                             # when the same query without the >1 compound boosts passes for the same k/variant.
